@@ -201,7 +201,10 @@ Example internal_examples :
   /\ importable ["example.com"; "d"; "bar"; "internal"; "secret"] ["example.com"; "d"; "barx"] = false
   /\ importable ["internal"; "cpu"] ["example.com"; "d"] = false
   /\ importable ["example.com"; "internals"; "x"] ["other"] = true
-  /\ importable ["a"; "internal"] ["a"; "b"] = true.
+  /\ importable ["a"; "internal"] ["a"; "b"] = true
+  (* a sibling whose name merely starts like the parent's, and the parent itself (seeded changes C01-r9m1, C10-r9m2) *)
+  /\ importable ["example.com"; "demo"; "store"; "internal"; "engine"] ["example.com"; "demo"; "storefront"] = false
+  /\ importable ["example.com"; "demo"; "internal"; "deps"] ["example.com"; "demo"] = true.
 Proof. repeat split. Qed.
 
 (* ---------------------------------------------------------------- evaluation for the correspondence *)
